@@ -34,6 +34,47 @@ type Atom struct {
 	// composed on the table instead of in the solver
 	Idx *Term
 	Tab []int
+	// byte token (verifByteToken): the token's text is these symbolic bytes (each ASCII a-z)
+	B []*Term
+}
+
+// atomsBytes: the bytes of a text all of whose parts have known length (literals, separators, constant
+// or byte tokens); ok=false otherwise. hasB reports whether a byte token occurs.
+func (x *Exec) atomsBytes(as []Atom) (bs []*Term, hasB bool, ok bool) {
+	for _, a := range as {
+		switch {
+		case a.K == ALit || a.K == ASep:
+			for i := 0; i < len(a.S); i++ {
+				bs = append(bs, BVi(int64(a.S[i]), 8))
+			}
+		case a.K == ATok && a.B != nil:
+			bs = append(bs, a.B...)
+			hasB = true
+		case a.K == ATok && a.T.IsConst():
+			str, known := x.in.Str(int(a.T.Uint64()))
+			if !known {
+				return nil, false, false
+			}
+			for i := 0; i < len(str); i++ {
+				bs = append(bs, BVi(int64(str[i]), 8))
+			}
+		default:
+			return nil, false, false
+		}
+	}
+	return bs, hasB, true
+}
+
+// bytesEqConst: the symbolic bytes spell exactly s.
+func bytesEqConst(bs []*Term, s string) *Term {
+	if len(bs) != len(s) {
+		return tFalse
+	}
+	c := make([]*Term, len(bs))
+	for i := range bs {
+		c[i] = Eq(bs[i], BVi(int64(s[i]), 8))
+	}
+	return And(c...)
 }
 
 // tabTok builds the token Tab[idx] (idx assumed in range).
@@ -239,7 +280,7 @@ func atomsIdentical(a, b []Atom) bool {
 		return false
 	}
 	for i := range a {
-		if a[i].K != b[i].K || a[i].S != b[i].S || a[i].T != b[i].T || !atomsIdentical(a[i].Sub, b[i].Sub) {
+		if a[i].K != b[i].K || a[i].S != b[i].S || a[i].T != b[i].T || len(a[i].B) != len(b[i].B) || !atomsIdentical(a[i].Sub, b[i].Sub) {
 			return false
 		}
 	}
@@ -256,6 +297,18 @@ func (x *Exec) strEq(a, b Value) *Term {
 	aa, ba := toAtoms(a), toAtoms(b)
 	if atomsIdentical(aa, ba) {
 		return tTrue
+	}
+	if ab, ha, ok := x.atomsBytes(aa); ok {
+		if bb, hb, ok := x.atomsBytes(ba); ok && (ha || hb) {
+			if len(ab) != len(bb) {
+				return tFalse
+			}
+			c := make([]*Term, len(ab))
+			for i := range ab {
+				c[i] = Eq(ab[i], bb[i])
+			}
+			return And(c...)
+		}
 	}
 	if !simpleAtoms(aa) || !simpleAtoms(ba) {
 		// a single opaque text compared with the empty string: its emptiness is a free Boolean
@@ -449,7 +502,9 @@ func (x *Exec) nfkdAtoms(as []Atom) []Atom {
 		case ALit, ASep:
 			out = append(out, atomsOfString(norm.NFKD.String(a.S))...)
 		case ATok:
-			if a.Tab != nil && !a.T.IsConst() {
+			if a.B != nil {
+				out = append(out, a) // ASCII letters: NFKD-stable
+			} else if a.Tab != nil && !a.T.IsConst() {
 				out = append(out, x.liftTok(a, func(s string) string { return norm.NFKD.String(s) }, "NFKD"))
 			} else {
 				out = append(out, x.nfkdTok(a.T)...)
